@@ -1,0 +1,8 @@
+//! Config (re)load: `ConfigFile::new` -> `Config::from_config_file`
+//! (`Manager::load` + `Manager::prepare`) -> `Manager::spawn_internal` with
+//! recording stubs.
+pub use crate::config::{Config, ConfigFile, Source};
+pub use crate::manager::verif::{
+    gates_table_names, reset_thread_local_tables, Action,
+};
+pub use crate::manager::Manager;
